@@ -210,3 +210,97 @@ def fish_reader_contract():
                  raises=lambda S, a, e: _z.BoolVal(False))
     c.region_name = "Hessian layout reader"
     return c
+
+
+# ------------------------------------------------------------ get_max_param / count_params (C08, C16)
+SUBSTR = z3.Function("str.contains", Label, Label, z3.BoolSort())
+
+
+def _has(eng, f, k):
+    """the parameter name a<k> occurs in the function string f ('a%i' % k in f; substring test, uninterpreted)"""
+    return SUBSTR(f, eng.label_fn("fmt:a%i", z3.IntSort())(k))
+
+
+def get_max_param_contract():
+    """get_max_param(all_fun): the result m is >= 0 and covers every function whose parameters are numbered without gaps: if a function contains
+    a0 .. a(k-1) then k <= m  (so ['a%i' % j for j in range(m)] contains every parameter of such a function).  Termination is not proved
+    (a string cannot contain infinitely many names; A-term)."""
+    def inv(S, st):
+        eng = S.eng
+        mp = S.var("max_param").t
+        AF = S.seq(eng.args0["all_fun"])
+        p, j = z3.Int("p!mp"), z3.Int("j!mp")
+        w = S.var("with_ai")
+        out = [("max_param >= -1", mp >= -1)]
+        fp = AF.get(p)
+        mem = eng.contains(w, fp, st, None)
+        out.append(("every function that contains a0 .. a<max_param> is still in with_ai",
+                    z3.ForAll([p], z3.Implies(z3.And(0 <= p, p < AF.len, z3.ForAll([j], z3.Implies(z3.And(0 <= j, j <= mp), _has(eng, fp.t, j)))), mem))))
+        return out
+
+    def ensures(S, a, res):
+        eng = S.eng
+        AF = S.seq(a["all_fun"])
+        p, k = z3.Int(fresh_name("p!sk")), z3.Int(fresh_name("k!sk"))
+        j = z3.Int("j!en")
+        return [("the result is non-negative", res.t >= 0),
+                ("a function that contains a0 .. a(k-1) has k <= result: the parameter list built from the result covers it",
+                 z3.Implies(z3.And(0 <= p, p < AF.len, k >= 0, z3.ForAll([j], z3.Implies(z3.And(0 <= j, j < k), _has(eng, AF.get(p).t, j)))), k <= res.t))]
+
+    def setup(eng, st, args):
+        st.env["rank"] = VInt(z3.Int("rank"))
+
+    return Contract("get_max_param", {"all_fun": T.list(T.label), "verbose": (T("conc", __import__("pyvc.values", fromlist=["VBool"]).VBool(False)),)},
+                    ensures=ensures, setup=setup, loops={0: LoopSpec(inv, havoc_types={"with_ai": T.list(T.label), "max_param": T.int})},
+                    raises=lambda S, a, e: z3.BoolVal(False))
+
+
+def count_params_contract():
+    """count_params(all_fun, max_param): nparam[i] = 1 + the largest j < max_param such that a<j> occurs in function i, and 0 if none does."""
+    MP = z3.Int("max_param")
+
+    def spec(S, fi, val):
+        eng = S.eng
+        j = z3.Int("j!cp")
+        return z3.Or(z3.And(val == 0, z3.ForAll([j], z3.Implies(z3.And(0 <= j, j < MP), z3.Not(_has(eng, fi, j))))),
+                     z3.And(1 <= val, val <= MP, _has(eng, fi, val - 1), z3.ForAll([j], z3.Implies(z3.And(val <= j, j < MP), z3.Not(_has(eng, fi, j))))))
+
+    def outer(S, st):
+        i = S.i(S.var("__i"))
+        AF, NPM = S.seq(S.eng.args0["all_fun"]), S.seq(S.var("nparam"))
+        q = z3.Int("q!cp")
+        return [("one counter per function", NPM.len == AF.len),
+                ("the counters of the functions already visited are right, the others are still 0",
+                 z3.ForAll([q], z3.Implies(z3.And(0 <= q, q < AF.len), z3.If(q < i, spec(S, AF.get(q).t, NPM.get(q).t), NPM.get(q).t == 0))))]
+
+    def inner(S, st):
+        eng = S.eng
+        k = S.i(S.var("__i"))               # iterations done: j has taken the values MP-1 .. MP-k
+        i = S.var("i").t
+        AF, NPM = S.seq(eng.args0["all_fun"]), S.seq(S.var("nparam"))
+        q, jj = z3.Int("q!ci"), z3.Int("j!ci")
+        return [("one counter per function", NPM.len == AF.len),
+                ("no parameter name above the current one occurs in function i, and its counter is still 0",
+                 z3.And(NPM.get(i).t == 0, z3.ForAll([jj], z3.Implies(z3.And(MP - k <= jj, jj < MP), z3.Not(_has(eng, AF.get(i).t, jj)))))),
+                ("the other counters are as the outer loop left them",
+                 z3.ForAll([q], z3.Implies(z3.And(0 <= q, q < AF.len, q != i), z3.If(q < i, spec(S, AF.get(q).t, NPM.get(q).t), NPM.get(q).t == 0))))]
+
+    def requires(S, a):
+        return [("max_param >= 0", a["max_param"].t >= 0)]
+
+    def ensures(S, a, res):
+        AF, NPM = S.seq(a["all_fun"]), S.seq(res)
+        q = z3.Int(fresh_name("q!sk"))
+        return [("one counter per function", NPM.len == AF.len),
+                ("nparam[i] = 1 + the largest j < max_param with a<j> in function i (0 if none)", z3.Implies(z3.And(0 <= q, q < AF.len), spec(S, AF.get(q).t, NPM.get(q).t)))]
+
+    def loop_select(node):
+        import ast as _a
+        if isinstance(node.target, _a.Name) and node.target.id == "i":
+            return LoopSpec(outer, havoc_types={"j": T.int})
+        return LoopSpec(inner)
+
+    c = Contract("count_params", {"all_fun": T.list(T.label), "max_param": lambda e, s: VInt(MP)}, requires=requires, ensures=ensures,
+                 raises=lambda S, a, e: z3.BoolVal(False))
+    c.loop_select = loop_select
+    return c
